@@ -200,6 +200,8 @@ const preludeFixed = `(declare-datatypes ((Slice 0)) (((mk_Slice (s_arr Int) (s_
 (define-fun rmin ((a Real) (b Real)) Real (ite (<= a b) a b))
 (define-fun rmax ((a Real) (b Real)) Real (ite (>= a b) a b))
 (define-fun roundhalf ((x Real)) Int (ite (>= x 0.0) (to_int (+ x 0.5)) (- (to_int (+ (- x) 0.5)))))
+(declare-fun at (Int Int) Int)
+(assert (forall ((o Int) (i Int)) (! (= (at o i) (+ o i)) :pattern ((at o i)))))
 (declare-fun kind (Int) Int)
 (declare-fun root (Int) Int)
 (declare-fun strlen (Int) Int)
